@@ -166,7 +166,14 @@ GUIDE_1 = {"meta": {"$generator": "nutree/0.5.1", "$format_version": "1.0", "foo
            "nodes": [[0, "A"], [1, "a1"], [2, "a11"], [2, "a12"], [1, "a2"], [0, "B"], [6, 3], [6, "b1"], [8, "b11"]]}
 GUIDE_1_SHAPE = [["A", [["a1", [["a11", []], ["a12", []]]], ["a2", []]]], ["B", [["a11", []], ["b1", [["b11", []]]]]]]
 BAD_DOCS = [[], {"nodes": []}, {"meta": {"$generator": "nutree/1"}}, {"meta": {}, "nodes": []}, {"meta": {"$generator": "other/1.0"}, "nodes": []},
-            "text", 5, {"meta": {"$format_version": "1.0"}, "nodes": [[0, "A"]]}]
+            "text", 5, {"meta": {"$format_version": "1.0"}, "nodes": [[0, "A"]]},
+            # "meta" of another JSON type (the membership test / subscript on it may raise TypeError instead of RuntimeError)
+            None, True, {"meta": None, "nodes": []}, {"meta": 5, "nodes": []}, {"meta": True, "nodes": [[0, "A"]]}, {"meta": [], "nodes": []},
+            {"meta": ["$generator"], "nodes": []}, {"meta": ["nutree/1"], "nodes": []}, {"meta": "abc", "nodes": []},
+            {"meta": "x$generator: nutree/1", "nodes": []}, {"meta": {"$generator": None}, "nodes": []}, {"meta": {"$generator": 5}, "nodes": []},
+            {"meta": {"$generator": "nutree"}, "nodes": []}, {"meta": None}, {"nodes": None}]
+# the header is accepted, "nodes" is not a list: what the first loop over it does
+ODD_NODES = [None, 5, True, "", "ab", {}, {"ab": 1}, {"abc": 1}, {"ab": 1, "c": 2}]
 
 
 def names(tree):
@@ -285,23 +292,37 @@ def run(ctx):
     if got != GUIDE_1_SHAPE:
         out.fail(dict(side="guide", doc=GUIDE_1), f"the user guide's example document loads as {got}")
     out.evaluations += 1
-    # malformed headers
+    # malformed headers: rejected (RuntimeError, or the TypeError that the test on a non-object "meta" raises); model: same class
     for bad in BAD_DOCS:
         out.evaluations += 1
         out.dist["bad_header"] += 1
+        rs = []
         for cls in (Tree, TypedTree):
             try:
                 cls.load(io.StringIO(json.dumps(bad)))
                 r = "ok"
-            except RuntimeError:
-                r = "runtime"
             except Exception as e:  # noqa
-                r = adapter.err_class(e) + ":" + type(e).__name__
-            if r != "runtime":
-                out.fail(dict(side="bad", doc=bad, cls=cls.__name__), f"{cls.__name__}.load of a document without nutree header: {r} (expected RuntimeError); doc {bad!r}")
+                r = adapter.err_class(e)
+            rs.append(r)
+            if r == "ok":
+                out.fail(dict(side="bad", doc=bad, cls=cls.__name__), f"{cls.__name__}.load of a document without nutree header was accepted; doc {bad!r}")
         ml = ctx.driver.ask({"op": "ser.load", "doc": bad, "typed": False, "deser": "none"})
-        if ml.get("err") != "runtime":
-            out.disagree(dict(side="bad", doc=bad), f"model: {ml}")
+        if "ok" not in rs and ml.get("err") != rs[0]:
+            out.disagree(dict(side="bad", doc=bad), f"document without header: implementation raises {rs}, model: {ml}")
+    for nd in ODD_NODES:
+        doc = {"meta": {"$generator": "nutree/1.0"}, "nodes": nd}
+        out.evaluations += 1
+        out.dist["odd_nodes"] += 1
+        for typed, cls in ((False, Tree), (True, TypedTree)):
+            try:
+                t = cls.load(io.StringIO(json.dumps(doc)))
+                r = "ok" if t.count == 0 else f"ok:{t.count}"
+            except Exception as e:  # noqa
+                r = adapter.err_class(e)
+            ml = ctx.driver.ask({"op": "ser.load", "doc": doc, "typed": typed, "deser": "none"})
+            mr = ("ok" if not ml["ok"] else f"ok:{len(ml['ok'])}") if "ok" in ml else ml.get("err")
+            if r != mr:
+                out.disagree(dict(side="odd", doc=doc, cls=cls.__name__), f'"nodes" = {nd!r}: implementation {r}, model {mr}')
     return out
 
 
